@@ -119,6 +119,15 @@ func (f *Frame) enterLoop(li *loopInfo, cur *State) {
 		e.havocAll(cur)
 	} else {
 		for _, name := range sortedKeys(ms.heaps) {
+			if name == "alloc" {
+				// allocation only grows
+				pre := e.allocArr(cur)
+				na := c.freshConst("alloc@loop", ms.heaps[name])
+				c.usesQuant = true
+				c.assert(fmt.Sprintf("(forall ((r Ref)) (! (=> (select %s r) (select %s r)) :pattern ((select %s r)) :pattern ((select %s r))))", pre, na, pre, na))
+				cur.heaps[name] = na
+				continue
+			}
 			cur.heaps[name] = c.freshConst(name+"@loop", ms.heaps[name])
 			if _, ok := e.heapSrt[name]; !ok {
 				e.heapSrt[name] = ms.heaps[name]
@@ -534,7 +543,15 @@ func (fc *FuncContract) inlineOnly() bool {
 // rootAlloc returns the allocation a pointer value is derived from, if the
 // derivation is purely syntactic (field / element addresses, slices of it).
 func rootAlloc(v ssa.Value) ssa.Value {
+	return rootAllocRec(v, map[ssa.Value]bool{})
+}
+
+func rootAllocRec(v ssa.Value, seen map[ssa.Value]bool) ssa.Value {
 	for {
+		if seen[v] {
+			return nil
+		}
+		seen[v] = true
 		switch x := v.(type) {
 		case *ssa.FieldAddr:
 			v = x.X
@@ -562,7 +579,7 @@ func rootAlloc(v ssa.Value) ssa.Value {
 				if c, isC := e.(*ssa.Const); isC && c.Value == nil {
 					continue
 				}
-				r := rootAlloc(e)
+				r := rootAllocRec(e, seen)
 				if r == nil || r == ssa.Value(x) {
 					return nil
 				}
